@@ -160,7 +160,7 @@ fn header_code(h: &Header) -> usize {
 
 // @harness props=C15 props_thorough=C03,C13 tiers=quick:M=0|M=2|M=6;thorough:M=0|M=1|M=2|M=3|M=4|M=5|M=6 unwind=22 cap=1500 mem=4 covers=2
 // @fn Header::try_from
-// @claim each recognised header name is matched in every letter-case pattern and with whitespace around it, and with nothing else around it: name M with a symbolic case flip on every letter, one arbitrary byte before and one after => recognised (as that header) iff both surrounding bytes are whitespace
+// @claim each recognised header name is matched in every letter-case pattern and with whitespace around it, and with nothing else around it: name M with a symbolic case flip on every letter, its hyphens replaced by one arbitrary byte, one arbitrary byte before and one after => recognised (as that header) iff both surrounding bytes are whitespace and the hyphen byte is '-'
 // @bounds the 7 names (one query each); every one of the 2^len case patterns; 1 arbitrary byte on each side
 // @stubs std::str::from_utf8(model:RFC3629-validator)
 #[kani::proof]
@@ -172,17 +172,33 @@ fn c15_name_case() {
     let mut buf = [0u8; 20];
     let l: u8 = kani::any();
     let r: u8 = kani::any();
+    // every hyphen of the name is replaced by one arbitrary byte: only '-' itself may match
+    let hy: u8 = kani::any();
     buf[0] = l;
     let mut i = 0;
     while i < n {
         let c = name[i];
         let up: bool = kani::any();
-        buf[1 + i] = if up && c >= b'a' && c <= b'z' { c - 32 } else { c };
+        buf[1 + i] = if c == b'-' {
+            hy
+        } else if up && c >= b'a' && c <= b'z' {
+            c - 32
+        } else {
+            c
+        };
         i += 1;
     }
     buf[1 + n] = r;
     let res = Header::try_from(&buf[..n + 2]);
-    let want = is_ws(l) && is_ws(r);
+    let mut has_hyphen = false;
+    i = 0;
+    while i < n {
+        if name[i] == b'-' {
+            has_hyphen = true;
+        }
+        i += 1;
+    }
+    let want = is_ws(l) && is_ws(r) && (!has_hyphen || hy == b'-');
     match &res {
         Ok(h) => {
             assert!(want, "[C15] header name recognised although it is surrounded by non-whitespace");
